@@ -156,6 +156,25 @@ def route_worker(rt):
     out['queries'] = H.ex.nq; out['solver_s'] = H.ex.tsolve; out['functions'] = sorted(H.ex.encoded)
     bad = [p for p in paths if p.status in ('unsupported', 'unwind')]
     if bad: out['inconclusive'] = bad[0].result
+    # facts for C20 (web logins are reported to the event stream): a browser login completes = a session cookie was minted / raised and the
+    # browser is sent on to its (filtered) login destination
+    out['weblogins'] = 0; out['weblogin_viol'] = []
+    for p in paths:
+        if p.status != 'returned': continue
+        mints = [e for e in p.evs('mint') if (e.get('kind') or '').endswith('authInfoJWT')]
+        if not mints or not p.evs('redirect') or not p.evs('filtered'): continue
+        out['weblogins'] += 1
+        sub = mints[-1]['claims']['sub']
+        pubs = [e for e in p.evs('publish') if 'WebLogin' in str(e['kind'])]
+        first_answer = min([p.events.index(e) for e in p.evs('redirect')])
+        if not [e for e in pubs if p.events.index(e) < first_answer]:
+            if not any(v[0] == rt['path'] + '/web-login-not-reported' for v in out['weblogin_viol']): out['weblogin_viol'].append((rt['path'] + '/web-login-not-reported', 'a browser login completes (session cookie raised, redirect to the login destination) without a web-login event', None))
+            continue
+        u = pubs[-1]['args'][0] if pubs[-1].get('args') else None
+        adm = p.evs('admitted')
+        who = adm[-1]['user'] if adm else sub      # the identity this request authenticated as (fresh logins: the subject of the new cookie)
+        if u is None or H.ex.check(p.pc, u != who)[0] != 'unsat':
+            if not any(v[0] == rt['path'] + '/web-login-other-user' for v in out['weblogin_viol']): out['weblogin_viol'].append((rt['path'] + '/web-login-other-user', 'the web-login event names a user other than the one who authenticated', None))
     return out
 
 
